@@ -224,12 +224,18 @@ class DataFrameSchemaBackend(PolarsSchemaBackend):
 
             if col_schema.regex:
                 try:
-                    column_names.extend(
-                        col_schema.get_backend(check_obj).get_regex_columns(
+                    matched_column_names = [
+                        *col_schema.get_backend(check_obj).get_regex_columns(
                             col_schema, check_obj
                         )
-                    )
-                    regex_match_patterns.append(col_schema.selector)
+                    ]
+                    column_names.extend(matched_column_names)
+                    if matched_column_names:
+                        regex_match_patterns.append(col_schema.selector)
+                    elif col_schema.required:
+                        # a required regex column must match at least one
+                        # column of the dataframe
+                        absent_column_names.append(col_name)
                 except SchemaError:
                     pass
             elif col_name in get_lazyframe_column_names(check_obj):
